@@ -9,8 +9,8 @@ Line protocol of the C10 model.
         of the live metas (path 0 = meta.json is always living);
         → `<dir'>|<managed'>|<deleted>|<failed>` (each sorted)
   `reg <tok>…`                           a storage log in the token format of `Driver/C01.lean` (with the
-        `.managed.json` payloads' path lists): index of the first operation that breaks R1–R3
-        (`GC.regOK`), or `ok`
+        `.managed.json` payloads' path lists): index of the first operation that breaks R1–R4
+        (`GC.regOK`, `GC.metaRegOK`), or `ok`
   `steps <dir> <managed> <live> <fails>` the same through the small-step events (`fullGCSteps`),
         → same format, plus `|safe` / `|unsafe` (discipline of the generated events)
 -/
@@ -31,7 +31,7 @@ def mk (dir managed : List Nat) (live : List (List Nat)) : St :=
 
 def regWalk : Storage.Dir → List Driver.C01.Tok → Nat → Option Nat
   | _, [], _ => none
-  | s, .op o :: ts, i => if regOK s o then regWalk (s.step o) ts (i + 1) else some i
+  | s, .op o :: ts, i => if regOK s o && metaRegOK s o then regWalk (s.step o) ts (i + 1) else some i
   | s, _ :: ts, i => regWalk s ts (i + 1)
 
 def handle : List String → String
